@@ -18,6 +18,16 @@ func init() {
 	checks["C12"] = checkDef{"exploration", checkC12, 112}
 	judges["ps-c05"] = judgePSKeys
 	judges["ps-probe"] = judgePSProbe
+	judges["ps-probe-c05"] = func(r *Run) []Finding {
+		var out []Finding
+		for _, f := range judgePSProbe(r) {
+			if !strings.HasPrefix(f.Key, "plmn.") {
+				out = append(out, f)
+			}
+		}
+		return out
+	}
+	judges["ps-probe-c11"] = func(r *Run) []Finding { return onlyRules(judgePSProbe(r), "plmn.convert", "panic", "exit.status") }
 	judges["ps-c12"] = judgePSEstablish
 	judges["ps-term"] = judgePSTermination
 	judges["ps-direct"] = judgePSDirect
@@ -155,6 +165,29 @@ func judgePSProbe(r *Run) []Finding {
 				fs = addFinding(fs, "keys."+x[0]+"@DeriveRESstarAndSetKey", fmt.Sprintf("derivation #%d of %d in this process: %s is %v, TS 33.501 Annex A gives %s (nea=%v nia=%v op-only=%v)", i, len(probes), x[2], c[x[0]], x[1], p["nea"], p["nia"], p["opc"] == ""), 0)
 			}
 		}
+		if k2, _ := p["kamf2"].(string); len(k2) == 64 {
+			kb, _ := hex.DecodeString(k2)
+			nea, nia := byte(p["nea"].(float64)), byte(p["nia"].(float64))
+			wi, we := hex.EncodeToString(crypto.AlgKey(kb, 2, nia)), hex.EncodeToString(crypto.AlgKey(kb, 1, nea))
+			if fmt.Sprint(c["knasint2"]) != wi || fmt.Sprint(c["knasenc2"]) != we {
+				fs = addFinding(fs, "keys.rekey@DerivateAlgKey", fmt.Sprintf("derivation #%d: after K_AMF was replaced in place, K_NASint/K_NASenc are %v/%v, TS 33.501 A.8 gives %s/%s", i, c["knasint2"], c["knasenc2"], wi, we), 0)
+			}
+		}
+		// the library's own PLMN conversion (the statement of C11 names it) for the serving PLMN and its
+		// sibling of the other MNC length
+		if pc, ok := c["plmn_conv"].(string); ok {
+			mcc, mnc := fmt.Sprint(p["mcc"]), fmt.Sprint(p["mnc"])
+			sib := "0" + mnc
+			if len(mnc) == 3 {
+				sib = mnc[1:]
+			}
+			if want := hex.EncodeToString(nas.EncodePLMN(mcc, mnc)); pc != want {
+				fs = addFinding(fs, "plmn.convert@PlmnIDToNas", fmt.Sprintf("derivation #%d: PlmnIDToNas(%s/%s) = %s, TS 24.501 9.11.3.4 gives %s", i, mcc, mnc, pc, want), 0)
+			}
+			if want := hex.EncodeToString(nas.EncodePLMN(mcc, sib)); fmt.Sprint(c["plmn_conv_sibling"]) != want {
+				fs = addFinding(fs, "plmn.convert@PlmnIDToNas", fmt.Sprintf("derivation #%d: PlmnIDToNas(%s/%s) = %v, TS 24.501 9.11.3.4 gives %s", i, mcc, sib, c["plmn_conv_sibling"], want), 0)
+			}
+		}
 	}
 	return fs
 }
@@ -173,6 +206,92 @@ func psScenario2(r *kernel.Rand, optIEs bool) *scn.Scenario {
 	s := Gen(r.Uint64(), o)
 	s.Args = []string{}
 	s.Rig = map[string]interface{}{"mode": "establish", "nea": 0, "nia": 2, "ran_id": 0}
+	return s
+}
+
+// probeScenario draws one sequence of 1..4 direct derivations in one process.
+func probeScenario(root *kernel.Rand, i int) *scn.Scenario {
+	s := psScenario(root, "probe", 0, 2, false)
+	// a sequence of 1..4 derivations in one process: consecutive subscribers share the operator's
+	// OP (different K), share K, or switch between OPc-configured and OP-only provisioning
+	var probes []interface{}
+	n := root.Range(1, 4)
+	var prevK, prevOP []byte
+	for q := 0; q < n; q++ {
+		k, op := boundary128(root), boundary128(root)
+		if q > 0 {
+			switch root.Intn(4) {
+			case 0:
+				op = prevOP
+			case 1:
+				k = prevK
+			case 2:
+				op = prevOP
+				k = append([]byte{}, prevK...)
+				k[root.Intn(16)] ^= 1 << uint(root.Intn(8))
+			}
+		}
+		prevK, prevOP = k, op
+		opc := crypto.OPc(k, op)
+		rnd, sqn, amf := boundary128(root), root.Bytes(6), root.Bytes(2)
+		switch root.Intn(6) {
+		case 0:
+			sqn = make([]byte, 6)
+		case 1:
+			sqn = []byte{0xff, 0xff, 0xff, 0xff, 0xff, 0xff}
+		}
+		mnc := root.Digits(2 + root.Intn(2))
+		mcc := root.Digits(3)
+		p := map[string]interface{}{"k": hexCase(root, k), "op": hexCase(root, op), "opc": hexCase(root, opc), "rand": hex.EncodeToString(rnd), "sqn": hex.EncodeToString(sqn), "amf": hex.EncodeToString(amf),
+			"mcc": mcc, "mnc": mnc, "imsi": mcc + mnc + root.Digits(supiTail(root, len(mnc))), "nea": float64((i + q) % 4), "nia": float64(((i + q) / 4) % 4)}
+		if root.Chance(1, 2) {
+			p["opc"] = ""
+		} else if root.Chance(1, 2) {
+			p["op"] = hexCase(root, root.Bytes(16)) // OPc configured: OP must be ignored
+		}
+		if q > 0 && root.Chance(1, 3) {
+			// re-authentication of the UE of the previous derivation (same context, same subscriber,
+			// same algorithm identifiers): a new SQN, and the RAND either fresh, repeated, or one bit off;
+			// sometimes in another serving network
+			pp := probes[q-1].(map[string]interface{})
+			for _, f := range []string{"k", "op", "opc", "imsi", "nea", "nia", "mcc", "mnc"} {
+				p[f] = pp[f]
+			}
+			p["same_ue"] = true
+			k, _ = hex.DecodeString(p["k"].(string))
+			if p["opc"].(string) != "" {
+				opc, _ = hex.DecodeString(p["opc"].(string))
+			} else {
+				opb, _ := hex.DecodeString(p["op"].(string))
+				opc = crypto.OPc(k, opb)
+			}
+			prevK = k
+			switch root.Intn(3) {
+			case 0:
+				rnd, _ = hex.DecodeString(pp["rand"].(string))
+			case 1:
+				rnd, _ = hex.DecodeString(pp["rand"].(string))
+				rnd[root.Intn(16)] ^= 1 << uint(root.Intn(8))
+			}
+			p["rand"] = hex.EncodeToString(rnd)
+			if hex.EncodeToString(sqn) == pp["sqn"].(string) {
+				sqn[5] ^= 1
+			}
+			p["sqn"] = hex.EncodeToString(sqn)
+			if root.Chance(1, 4) {
+				p["mcc"] = root.Digits(3)
+			}
+		}
+		if root.Sub(fmt.Sprint("rk", i, q)).Chance(1, 3) {
+			p["kamf2"] = hex.EncodeToString(root.Sub(fmt.Sprint("rkv", i, q)).Bytes(32))
+		}
+		autn := crypto.AUTN(k, opc, rnd, sqn, amf)
+		// AUTN values a network may produce include leading zero octets of SQN xor AK
+		p["autn"] = hex.EncodeToString(autn)
+		probes = append(probes, p)
+	}
+	s.Rig["probes"] = probes
+	s.Rig["nea"], s.Rig["nia"] = probes[0].(map[string]interface{})["nea"], probes[0].(map[string]interface{})["nia"]
 	return s
 }
 
@@ -238,85 +357,8 @@ func checkC05(c *Ctx) {
 
 	jobs = nil
 	for i := 0; i < nProbe; i++ {
-		s := psScenario(root, "probe", 0, 2, false)
-		// a sequence of 1..4 derivations in one process: consecutive subscribers share the operator's
-		// OP (different K), share K, or switch between OPc-configured and OP-only provisioning
-		var probes []interface{}
-		n := root.Range(1, 4)
-		var prevK, prevOP []byte
-		for q := 0; q < n; q++ {
-			k, op := boundary128(root), boundary128(root)
-			if q > 0 {
-				switch root.Intn(4) {
-				case 0:
-					op = prevOP
-				case 1:
-					k = prevK
-				case 2:
-					op = prevOP
-					k = append([]byte{}, prevK...)
-					k[root.Intn(16)] ^= 1 << uint(root.Intn(8))
-				}
-			}
-			prevK, prevOP = k, op
-			opc := crypto.OPc(k, op)
-			rnd, sqn, amf := boundary128(root), root.Bytes(6), root.Bytes(2)
-			switch root.Intn(6) {
-			case 0:
-				sqn = make([]byte, 6)
-			case 1:
-				sqn = []byte{0xff, 0xff, 0xff, 0xff, 0xff, 0xff}
-			}
-			mnc := root.Digits(2 + root.Intn(2))
-			mcc := root.Digits(3)
-			p := map[string]interface{}{"k": hexCase(root, k), "op": hexCase(root, op), "opc": hexCase(root, opc), "rand": hex.EncodeToString(rnd), "sqn": hex.EncodeToString(sqn), "amf": hex.EncodeToString(amf),
-				"mcc": mcc, "mnc": mnc, "imsi": mcc + mnc + root.Digits(supiTail(root, len(mnc))), "nea": float64((i + q) % 4), "nia": float64(((i + q) / 4) % 4)}
-			if root.Chance(1, 2) {
-				p["opc"] = ""
-			} else if root.Chance(1, 2) {
-				p["op"] = hexCase(root, root.Bytes(16)) // OPc configured: OP must be ignored
-			}
-			if q > 0 && root.Chance(1, 3) {
-				// re-authentication of the UE of the previous derivation (same context, same subscriber,
-				// same algorithm identifiers): a new SQN, and the RAND either fresh, repeated, or one bit off;
-				// sometimes in another serving network
-				pp := probes[q-1].(map[string]interface{})
-				for _, f := range []string{"k", "op", "opc", "imsi", "nea", "nia", "mcc", "mnc"} {
-					p[f] = pp[f]
-				}
-				p["same_ue"] = true
-				k, _ = hex.DecodeString(p["k"].(string))
-				if p["opc"].(string) != "" {
-					opc, _ = hex.DecodeString(p["opc"].(string))
-				} else {
-					opb, _ := hex.DecodeString(p["op"].(string))
-					opc = crypto.OPc(k, opb)
-				}
-				prevK = k
-				switch root.Intn(3) {
-				case 0:
-					rnd, _ = hex.DecodeString(pp["rand"].(string))
-				case 1:
-					rnd, _ = hex.DecodeString(pp["rand"].(string))
-					rnd[root.Intn(16)] ^= 1 << uint(root.Intn(8))
-				}
-				p["rand"] = hex.EncodeToString(rnd)
-				if hex.EncodeToString(sqn) == pp["sqn"].(string) {
-					sqn[5] ^= 1
-				}
-				p["sqn"] = hex.EncodeToString(sqn)
-				if root.Chance(1, 4) {
-					p["mcc"] = root.Digits(3)
-				}
-			}
-			autn := crypto.AUTN(k, opc, rnd, sqn, amf)
-			// AUTN values a network may produce include leading zero octets of SQN xor AK
-			p["autn"] = hex.EncodeToString(autn)
-			probes = append(probes, p)
-		}
-		s.Rig["probes"] = probes
-		s.Rig["nea"], s.Rig["nia"] = probes[0].(map[string]interface{})["nea"], probes[0].(map[string]interface{})["nia"]
-		jobs = append(jobs, Job{S: s, Rig: "ps", Judge: "ps-probe", Tag: "c05-probe"})
+		s := probeScenario(root, i)
+		jobs = append(jobs, Job{S: s, Rig: "ps", Judge: "ps-probe-c05", Tag: "c05-probe"})
 	}
 	c.Batch(jobs, func(j Job, r *Run, fs []Finding) {
 		shape("probe", j.S)
